@@ -109,3 +109,47 @@ def union_copy_fact(fam, t):
                     if o[0] in ("seq", "map", "counter", "chainmap", "vtuple", "tuple") and o[0] != m[0]:
                         return True
     return False
+
+
+def align_unions(fam, t, live):
+    """typing caches generic aliases and Union equality ignores member order, so `Union[float, int]` evaluated in a
+    long-running process may come back as an earlier `Union[int, float]` object.  The library sees the live object:
+    re-order the AST's union members to the live __args__ order (recursively through the common wrappers)."""
+    import typing
+    k = t[0]
+    try:
+        if k == "union":
+            args = list(typing.get_args(live))
+            members = list(t[1])
+            live_of = []
+            for m in members:
+                live_of.append(type(None) if m == ("none",) else eval_type(fam, m))
+            ordered = []
+            used = set()
+            for a in args:
+                for i, lm in enumerate(live_of):
+                    if i not in used and (lm is a or lm == a):
+                        ordered.append(align_unions(fam, members[i], a))
+                        used.add(i)
+                        break
+            if len(ordered) == len(members):
+                return ("union", tuple(ordered)) + tuple(t[2:])
+            return t
+        if k == "opt":
+            inner = [a for a in typing.get_args(live) if a is not type(None)]
+            if tast.strip(t[1])[0] == "union":
+                # Optional[Union[a, b]] is the flat Union[a, b, None]
+                sub = ("union", tuple(t[1][1]) + (("none",),))
+                al = align_unions(fam, sub, live)
+                return al if al[0] == "union" and len(al[1]) == len(sub[1]) else t
+            if len(inner) == 1:
+                return ("opt", align_unions(fam, t[1], inner[0])) + tuple(t[2:])
+            return t
+        if k == "seq":
+            return (k, t[1], align_unions(fam, t[2], typing.get_args(live)[0]))
+        if k == "map":
+            a = typing.get_args(live)
+            return (k, t[1], t[2], align_unions(fam, t[3], a[1]))
+    except Exception:
+        return t
+    return t
